@@ -13,3 +13,6 @@ let desc = { fresh = du_fresh; decode = (if orig then du_decode_orig else du_dec
   next = (fun _ _ -> "none"); render_panics = du_render_panics; of_spec; junk_len = 0 }
 let run id ops out = run_generic desc id ops out
 let registered = Registry.register "Ldhcp6duid" run
+let coq_layer (l : duid) = Printf.sprintf "(mkDu %s %s %s %s %s %s)" (coq_z l.du_type) (coq_zlist l.du_hw) (coq_zlist l.du_en) (coq_zlist l.du_time) (coq_zlist l.du_lla) (coq_zlist l.du_id)
+let registered_coq = Registry.register_coq "Ldhcp6duid" ("From GP Require Import Base Ldhcp6duidModel.\n",
+  Lsmallutil.to_coq_generic { Lsmallutil.cd = desc; coq_layer; g_dec = (if orig then "du_decode_orig" else "du_decode_into"); g_fresh = "du_fresh"; g_ser = "du_serialize"; g_rp = "du_render_panics" })
